@@ -27,8 +27,13 @@ type Case struct {
 }
 
 func check(c Case) (pbt.Info, error) {
-	if c.Elem == "int" {
+	switch c.Elem {
+	case "int":
 		return checkE(c, script.IntDomain)
+	case "bigint":
+		return checkE(c, script.BigIntDomain)
+	case "float":
+		return checkE(c, script.FloatDomain)
 	}
 	return checkE(c, script.StringDomain)
 }
@@ -197,11 +202,22 @@ func sameUpToOrder(x, y any) bool {
 
 func gen(kind, elem string) func(t *rapid.T) Case {
 	return func(t *rapid.T) Case {
-		n := len(script.IntDomain.Elems)
-		if elem == "string" {
-			n = len(script.StringDomain.Elems)
+		switch elem {
+		case "string":
+			return Case{Cfg: script.GenCfg(t, kind), Elem: elem, Ops: script.GenOps(t, kind, len(script.StringDomain.Elems), 24)}
+		case "float":
+			return Case{Cfg: script.GenCfg(t, kind), Elem: elem, Ops: script.GenOps(t, kind, len(script.FloatDomain.Elems), 24)}
+		case "bigint": // dozens to hundreds of elements; rings up to capacity 100, B-tree orders up to 33
+			cfg := script.GenCfg(t, kind)
+			if kind == "circularbuffer" {
+				cfg.Cap = []int{9, 16, 31, 64, 100}[rapid.IntRange(0, 4).Draw(t, "bigcap")]
+			}
+			if kind == "btree" {
+				cfg.Order = []int{3, 4, 7, 16, 33}[rapid.IntRange(0, 4).Draw(t, "bigorder")]
+			}
+			return Case{Cfg: cfg, Elem: elem, Ops: script.GenOpsBig(t, kind, len(script.BigIntDomain.Elems))}
 		}
-		return Case{Cfg: script.GenCfg(t, kind), Elem: elem, Ops: script.GenOps(t, kind, n, 24)}
+		return Case{Cfg: script.GenCfg(t, kind), Elem: elem, Ops: script.GenOps(t, kind, len(script.IntDomain.Elems), 24)}
 	}
 }
 
@@ -210,6 +226,10 @@ func TestGenerated(t *testing.T) {
 		for _, elem := range []string{"int", "string"} {
 			pbt.Run(t, pbt.Target[Case]{Name: kind + "/" + elem, Checks: 4000, Gen: gen(kind, elem), Check: check})
 		}
+		if !all.KeyValue(kind) { // float64 is not a JSON object key type (encoding/json rejects it): value containers only
+			pbt.Run(t, pbt.Target[Case]{Name: kind + "/float", Checks: 1500, Gen: gen(kind, "float"), Check: check})
+		}
+		pbt.Run(t, pbt.Target[Case]{Name: kind + "/bigint", Checks: 250, Gen: gen(kind, "bigint"), Check: check})
 	}
 }
 
